@@ -1013,6 +1013,9 @@ func differential(repo, work string, hfs []*sym.HarnessFile, l *sym.Loaded, tier
 		iassume := r.Stats.Aborted["assume"] > 0
 		a := fmt.Sprintf("fails=%v panic=%v assume=%v obs=%v", ifails, ipanic, iassume, r.Observes)
 		b := fmt.Sprintf("fails=%v panic=%v assume=%v obs=%v", nres[i].AssertFails, nres[i].Panic != "", nres[i].AssumeFail, nres[i].Obs)
+		if len(r.Stats.EngineErrors) > 0 && strings.Contains(r.Stats.EngineErrors[0], "zzsymUF in concrete mode") {
+			continue // uninterpreted function reached through a sibling file: no concrete counterpart to compare
+		}
 		if len(r.Stats.EngineErrors) > 0 {
 			mism = append(mism, fmt.Sprintf("%s: interpreter error in concrete mode: %s", c.Entry, clip(r.Stats.EngineErrors[0], 300)))
 			continue
